@@ -89,6 +89,15 @@ def gccState (st : HSt) (v : String) (il : ILPure) : HSt :=
   let r := chk st (.setl v il) []
   { r.2 with hyb := r.2.hyb + 1, pending := r.2.pending ++ [gccPend r.2.hyb v r.1] }
 
+/-- the pending entry of `({ name(exts…, args…); val; })`: the void call, then `SETL(h_tmpN, val)` -/
+def seqPend (st : HSt) (name : String) (exts : List String) (cargs : List ILPure) (v : ILPure) : Pend :=
+  { tmp := tmpName st.hyb, deps := (popPending st.pending (tmpsOfPures cargs ++ tmpsOfPure v)).1.map Pend.render,
+    exec := vcallEffect name exts cargs, setTmp := .setl (tmpName st.hyb) v, setFirst := false, gcc := true }
+
+def seqState (st : HSt) (name : String) (exts : List String) (cargs : List ILPure) (v : ILPure) : HSt :=
+  { st with hyb := st.hyb + 1,
+            pending := (popPending st.pending (tmpsOfPures cargs ++ tmpsOfPure v)).2 ++ [seqPend st name exts cargs v] }
+
 def wrapThen (st : HSt) (n : String) (c : ILPure) : HSt :=
   { st with pending := st.pending.map (fun p => if p.tmp == n then { p with exec := .branch c p.exec .empty } else p) }
 
@@ -120,6 +129,7 @@ def hybCountE : CExpr → Nat
   | .post _ _ _ => 1
   | .call _ args _ _ => hybCountEs args + 1
   | .stmtexpr _ _ e => hybCountE e + 1
+  | .seqexpr _ _ args _ val => hybCountEs args + hybCountE val + 1
   | _ => 0
 def hybCountEs : List CExpr → Nat
   | [] => 0
@@ -139,6 +149,7 @@ def hybCountS : CStmt → Nat
   | .jump e => hybCountE e
   | .exprstmt e => hybCountE e
   | .ret e => hybCountE e
+  | .vcall _ _ args _ => hybCountEs args
   | .skip _ => 0
 def hybCountSs : List CStmt → Nat
   | [] => 0
@@ -162,6 +173,7 @@ def exprNames : CExpr → List String
   | .post v _ _ => [v]
   | .call _ args _ _ => exprsNames args
   | .stmtexpr _ v e => v :: exprNames e
+  | .seqexpr _ _ args _ val => exprsNames args ++ exprNames val
   | _ => []
 def exprsNames : List CExpr → List String
   | [] => []
@@ -181,6 +193,7 @@ def stmtNames : CStmt → List String
   | .jump e => exprNames e
   | .exprstmt e => exprNames e
   | .ret e => exprNames e
+  | .vcall _ _ args _ => exprsNames args
   | .skip _ => []
 def stmtsNames : List CStmt → List String
   | [] => []
@@ -214,6 +227,7 @@ def noConstTernE : CExpr → Bool
   | .macro _ args _ _ => noConstTernEs args
   | .call _ args _ _ => noConstTernEs args
   | .stmtexpr _ _ e => noConstTernE e
+  | .seqexpr _ _ args _ val => noConstTernEs args && noConstTernE val
   | _ => true
 def noConstTernEs : List CExpr → Bool
   | [] => true
@@ -233,6 +247,7 @@ def noConstTernS : CStmt → Bool
   | .jump e => noConstTernE e
   | .exprstmt e => noConstTernE e
   | .ret e => noConstTernE e
+  | .vcall _ _ args _ => noConstTernEs args
   | .skip _ => true
 def noConstTernSs : List CStmt → Bool
   | [] => true
